@@ -356,6 +356,34 @@ example :
       [.setFlat [2, 3], .integrate [1, 1] 1 1, .readOut, .setFlat [1, 1], .integrate [1, 2] 1 1, .readOut]
       = [(false, .image [2, 3]), (true, .image [1, 2])] := by decide +kernel
 
+/-! ### the grid an image is labelled with -/
+
+/-- **Images live on the detector grid — the grid label**: whatever the caller hands to `integrate` (a Field on the
+input grid, a Field on a foreign grid, a plain array), every image of every history is labelled with the
+detector grid (driver ops `tint` / `tread`, compared with `image.grid` of the real object). -/
+theorem image_grid_is_detector_grid (ops : List TOp) (st : TSt)
+    (h : st.acc = none ∨ st.acc = some .detector) : ∀ t ∈ tRunWith relabel st ops, t = .detector := by
+  induction ops generalizing st with
+  | nil => simp [tRunWith]
+  | cons op ops ih =>
+    cases op with
+    | integrate p =>
+      simp only [tRunWith, tStepWith]
+      apply ih
+      rcases h with h | h <;> simp [h, tagAdd, relabel]
+    | readOut =>
+      simp only [tRunWith, tStepWith, List.mem_cons]
+      rintro t (rfl | ht)
+      · rcases h with h | h <;> simp [h]
+      · exact ih _ (Or.inl rfl) t ht
+
+/-- Old (D170, documentation): on the unrepaired subsampling-1 path a Field on a foreign grid makes the image live
+on that foreign grid — the label model can express the defect -/
+theorem Old_image_on_foreign_grid :
+    tRunWith relabelOld {} [.integrate .onForeign, .integrate .onInput, .readOut, .readOut] = [.foreign, .detector] ∧
+    tRunWith relabel {} [.integrate .onForeign, .integrate .onInput, .readOut, .readOut] = [.detector, .detector] := by
+  decide
+
 /-! ### reference level: aliasing
 
 Model/Detector.lean `rStep`: arrays are heap cells, the caller holds handles and may write through them. -/
